@@ -289,14 +289,18 @@ class C03(Check):
     pid = "C03"
     level = "exploration"
     design_ref = "DESIGN.md §4 C03"
-    rule = ("complete product per family: CP (order 1-4, dims {1,2,3}, R 1-3, weights none/ones/signed, real/complex, 3 mask "
-            "patterns), Tucker (order 2-4, every dims x core-size vector, skip_factor none/each, transpose_factors), TT "
-            "(order 1-4, every rank vector with boundary 1), TR (order 2-4, every cyclic rank vector), TT-matrix (1-3 cores, every "
-            "in/out/rank vector), PARAFAC2 (1-3 slices, every height tuple incl. uneven, K, R, weights, every signed-selection "
-            "projection variant); thorough adds size 4 / order 5 / rank 4; each structure x {core,einsum} x {tuple,wrapper}; "
-            "plus every single structural perturbation of each structure (rejection sub-lattice). A case is one structure; it is "
-            "non-trivial iff the reference dense tensor has >= 2 entries and is not identically zero; each (structure, entry "
-            "point, perturbation kind) of the rejection sub-lattice is non-trivial (the call must raise)")
+    rule = ("complete product per family. quick: CP order 1-4 dims {1,2,3} (+ size 4 up to order 3), R 1-3, weights none/ones/signed, "
+            "integer and Gaussian-integer factors, no mask + 3 full-shape 0/1 masks; Tucker order 2-4, every dims x core-size vector over "
+            "{1,2,3}, skip_factor none/each, transpose_factors F/T; TT order 1-4 and TR order 2-4, dims {1,2,3}, every (cyclic) rank vector "
+            "over {1,2,3}; TT-matrix 1-3 cores, every in/out/rank vector ({1,2,3} for <= 2 cores, {1,2} (+ some 3) for 3); PARAFAC2 1-3 "
+            "slices, every height tuple over {1,2,3} (even and uneven), K 1-3, R 1-2, weights none/signed, every signed-selection "
+            "projection variant. thorough adds CP order 5 / rank 4 / size 4, Tucker order 5, TT order 5 and size/rank 4, TR order 5, "
+            "TT-matrix 3 cores over {1,2,3} and 4 cores, PARAFAC2 heights <= 4 and R 3. Every structure x {core,einsum} x {tuple/list, "
+            "wrapper object} x every view (dense, each unfolding mode, vec, matrix, slice(s), shape, rank, norm); plus every single "
+            "structural perturbation of each structure x every validating entry point (rejection sub-lattice). A case is one "
+            "structure; it is non-trivial iff its reference dense tensor has >= 2 entries and is not identically zero; each "
+            "(structure, entry point, perturbation) of the rejection sub-lattice is non-trivial (the call must raise). evaluations = "
+            "library calls compared with the oracle")
     assumptions = [
         "reference contractions: explicit python loops in vmc/ref/core.py (cp_dense, tucker via mode_dot, tt_dense, tr_dense, unfold, vec) "
         "and vmc/ref/c03_ref.py (ttm_dense, parafac2_slices/dense, merge_leading)",
@@ -307,7 +311,7 @@ class C03(Check):
     ]
 
     def groups(self, tier, seed):
-        target_s = 2.5 if tier == "quick" else 12.0  # groups of similar cost (sized from static per-case estimates)
+        target_s = 2.5 if tier == "quick" else 6.0  # groups of similar cost (sized from static per-case estimates)
         out = []
         for f in FAMILIES:
             ng = max(4, int(round(len(structures(f, tier)) * MS_PER_CASE[f] / 1000.0 / target_s)))
